@@ -122,6 +122,18 @@ fn operand_matrix(e: &mut Eng, triples: bool) {
         mk(big_stack, big_mem, None, vec![]),
     ];
     let ops = vmgen::plain_ops();
+    // every op (Push included) with no operand, one operand and on a full stack: each op that can fail does
+    let full: Vec<Word> = (0..4096).map(|i| i % 3).collect();
+    for op in ops.iter().copied().chain([PUSH(1)]) {
+        for stack in [vec![], vec![3], full.clone()] {
+            if !e.mine() {
+                continue;
+            }
+            let mut c = single(&[op], &bases[0]);
+            c.stack = stack;
+            e.run(&c, JudgeOpts { mapped: false, lockstep: true, eval: false }, "matrix");
+        }
+    }
     for op in &ops {
         for &a in ALPHA {
             for &b in ALPHA {
